@@ -6,5 +6,7 @@ func init() {
 		{Run: "TestServer", Quick: 3200, Thorough: 60000, QShards: 16, TShards: 16, MemMB: 8192},
 		// hostile peer -> gopcua client channels; a dispatcher panic ends the child, the journal names the case
 		{Run: "TestClient", Quick: 1600, Thorough: 30000, QShards: 16, TShards: 16, MemMB: 8192},
+		// a well-formed OpenSecureChannelResponse with fitting request id and sequence number in the middle of an open channel
+		{Run: "TestOPNResponseMidStream", Quick: 160, Thorough: 3000, QShards: 8, TShards: 16, MemMB: 8192},
 	}}
 }
